@@ -160,72 +160,8 @@ func extractGo(p *load.Prog) (*extracted, []string) {
 		out.consts[name] = constant.StringVal(obj.Val())
 		out.pos[name] = obj.Pos()
 	}
-	for _, name := range validatorNames {
-		fd, _ := p.FuncDecl("validation", name)
-		if fd == nil || fd.Body == nil {
-			problems = append(problems, "validator "+name+" not found")
-			continue
-		}
-		out.pos[name] = fd.Pos()
-		if fd.Type.Params == nil || len(fd.Type.Params.List) != 1 || len(fd.Type.Params.List[0].Names) != 1 {
-			problems = append(problems, name+": expected exactly one parameter")
-			continue
-		}
-		param := x.info.Defs[fd.Type.Params.List[0].Names[0]]
-		vars := map[types.Object]int{}
-		var f *Formula
-		var err error
-		for _, st := range fd.Body.List {
-			switch s := st.(type) {
-			case *ast.AssignStmt:
-				if len(s.Lhs) != 2 || len(s.Rhs) != 1 || s.Tok != token.DEFINE {
-					err = fmt.Errorf("unsupported assignment form")
-					break
-				}
-				call, ok := s.Rhs[0].(*ast.CallExpr)
-				fn, _ := typeutil.Callee(x.info, call).(*types.Func)
-				if !ok || fn == nil || fn.Pkg() == nil || fn.Pkg().Path() != "regexp" || fn.Name() != "MatchString" || len(call.Args) != 2 {
-					err = fmt.Errorf("assignment from something other than regexp.MatchString")
-					break
-				}
-				pat, ok := x.foldString(call.Args[0])
-				if !ok {
-					err = fmt.Errorf("pattern is not a constant-foldable string")
-					break
-				}
-				id, ok := ast.Unparen(call.Args[1]).(*ast.Ident)
-				if !ok || x.info.Uses[id] != param {
-					err = fmt.Errorf("MatchString subject is not the function's parameter")
-					break
-				}
-				lhs, ok := s.Lhs[0].(*ast.Ident)
-				if !ok {
-					err = fmt.Errorf("unsupported assignment target")
-					break
-				}
-				vars[x.info.Defs[lhs]] = x.pat(pat)
-			case *ast.ReturnStmt:
-				if len(s.Results) != 1 {
-					err = fmt.Errorf("unsupported return")
-					break
-				}
-				f, err = x.formula(s.Results[0], vars, param)
-			default:
-				err = fmt.Errorf("unsupported statement %T", st)
-			}
-			if err != nil {
-				break
-			}
-		}
-		if err == nil && f == nil {
-			err = fmt.Errorf("no return value found")
-		}
-		if err != nil {
-			problems = append(problems, name+": "+err.Error())
-			continue
-		}
-		out.formulas[name] = f
-	}
+	// the validators themselves are read from the SSA form (helpers inlined, strings folded, control flow as formula)
+	problems = append(problems, extractSSA(p, out, x)...)
 	return out, problems
 }
 
@@ -235,8 +171,14 @@ func resolve(f *Formula, all map[string]*Formula, depth int) (*Formula, error) {
 		return nil, fmt.Errorf("validator calls nest too deeply or recurse")
 	}
 	switch f.Op {
-	case "pat":
+	case "pat", "true", "false":
 		return f, nil
+	case "not":
+		l, err := resolve(f.L, all, depth)
+		if err != nil {
+			return nil, err
+		}
+		return &Formula{Op: "not", L: l}, nil
 	case "call":
 		c, ok := all[f.Name]
 		if !ok {
@@ -590,6 +532,10 @@ func formulaString(f *Formula, pats []string) string {
 		return "(" + formulaString(f.L, pats) + " && " + formulaString(f.R, pats) + ")"
 	case "or":
 		return "(" + formulaString(f.L, pats) + " || " + formulaString(f.R, pats) + ")"
+	case "not":
+		return "!" + formulaString(f.L, pats)
+	case "true", "false":
+		return f.Op
 	}
 	return f.Name + "(·)"
 }
@@ -609,6 +555,12 @@ func family(dfas []*PatDFA, fs ...*Formula) []*Machine {
 				pats = append(pats, dfas[f.Pat])
 			}
 			return &Formula{Op: "pat", Pat: i}
+		}
+		switch f.Op {
+		case "true", "false":
+			return f
+		case "not":
+			return &Formula{Op: "not", L: conv(f.L)}
 		}
 		return &Formula{Op: f.Op, L: conv(f.L), R: conv(f.R)}
 	}
